@@ -118,6 +118,10 @@ def gen(tier, rng, harness=None, driver=None):
     # inputs the parser accepts although LLVM would not: element annotations of an aggregate constant that differ from the element type of the aggregate
     # (they are kept as written); the printed text must still be a fixpoint
     from . import catalog as _cat
+    # a function header with BOTH an alignment field and an alignment written as an attribute (`align 16 align=8`), in either order, on a declaration and a definition
+    for kw, body in (("declare", ""), ("define", " {\n\tret void\n}")):
+        for cl in ("align 16 align=8", "align=8 align 16", "align=8 align=4 align 2", "nounwind align=8 align 16 cold"):
+            lines.append("!mod.stable - %s" % hx("%s void @f() %s%s\n" % (kw, cl, body)))
     # key-value attributes with an EMPTY value next to the bare string attribute of the same key (`"k"=""` and `"k"` are different attributes): in a group, in two
     # definitions of one group, on a function header, at a call site, on a global variable
     for body in ('"k"=""', '"k"="" "k"', '"k" "k"=""', '"k"="" "k"="" "k"'):
